@@ -311,6 +311,26 @@ func callBuiltin(caller *frame, callpos token.Pos, fn *ssa.Builtin, args []value
 			panic(fmt.Sprintf("cap: illegal operand: %T", x))
 		}
 
+	case "clear":
+		switch x := args[0].(type) {
+		case []value:
+			if len(x) > 0 {
+				tElt := fn.Type().(*types.Signature).Params().At(0).Type().Underlying().(*types.Slice).Elem()
+				for i := range x {
+					x[i] = zero(tElt)
+				}
+			}
+		case *omap:
+			if x != nil {
+				for _, e := range x.entries {
+					e.dead = true
+				}
+				x.idx = map[value]*oentry{}
+				x.live, x.nsym = 0, 0
+			}
+		}
+		return nil
+
 	case "min":
 		return foldLeft(vmin, args)
 	case "max":
